@@ -75,11 +75,11 @@ def outTables (tb : Tables) : Scalar → Table
   | .string => tb.outString | .id => tb.outId | .boolean => tb.outBoolean | .time => tb.outTime
 
 /-- which listed deviation an unsound output arm belongs to -/
-def flagOfArm (s : Scalar) (k : Kind) (a : Action) : String :=
+def flagOfArm (nulls : Bool) (s : Scalar) (k : Kind) (a : Action) : String :=
   match a with
-  | .parseIntKeep _ | .parseFloatKeep _ | .parseBoolKeep | .timeParseKeep => "D15"
+  | .parseIntKeep _ | .parseFloatKeep _ | .parseBoolKeep | .timeParseKeep => if nulls then "D16" else "D15"
   | .fmtInt => "D48"
-  | _ => if (s == .float || s == .float64) && k == .str then "D15" else "D16"
+  | _ => if (s == .float || s == .float64) && k == .str && !nulls then "D15" else "D16"
 
 /-- deviations exercised by this case -/
 partial def attribution (tb : Tables) : TRef → Data Nat → List String
@@ -90,7 +90,7 @@ partial def attribution (tb : Tables) : TRef → Data Nat → List String
   | .list t, .slice .reflect xs => xs.flatMap (fun x => attribution tb t (.leaf x))
   | .scalar s, .leaf v =>
     let a := (outTables tb s).armFor v.kind
-    if armSoundOutT s v.kind a then [] else [flagOfArm s v.kind a]
+    if armSoundOutR tb.leafErrNulls s v.kind a then [] else [flagOfArm tb.leafErrNulls s v.kind a]
   | .enum _, .leaf (.str _) => ["D17"]
   | .enum _, .leaf (.sym _) => ["D17"]
   | _, _ => []
@@ -121,7 +121,7 @@ def handle (tb : Tables) (c impl : T) : String :=
     | none => "bad-op"
     | some (t, d, hs) =>
       let ext := nativeExt hs
-      let (out, nerr) := resolveData ext (outTables tb) t d
+      let (out, nerr) := resolveData ext (outTables tb) tb.leafErrNulls t d
       let cur := T.node "obs" [encOut out, T.ofNat nerr]
       let specOk := match impl with
         | .node "obs" [o, _] => (match decOut o with | some o => dataOk ext t d o | none => false)
@@ -135,7 +135,7 @@ def hasKeep (tbl : Table) : Bool :=
 
 def flags (tb : Tables) : List (String × Bool) :=
   let all : List Scalar := [.int, .int64, .float, .float64, .string, .id, .boolean, .time]
-  let unsound := all.flatMap (fun s => (unsoundOut s (outTables tb s)).map (fun p => flagOfArm s p.1 p.2))
+  let unsound := all.flatMap (fun s => (unsoundOutR tb.leafErrNulls s (outTables tb s)).map (fun p => flagOfArm tb.leafErrNulls s p.1 p.2))
   [("D15", unsound.contains "D15"), ("D16", unsound.contains "D16"), ("D48", unsound.contains "D48"),
    ("D17", true), ("D18", true)]
 
